@@ -11,8 +11,13 @@ run-time panic of the handler goroutine. Property theorems only; the lemmas are 
   carry the resource-record marker); without it the handler can panic, witness below.
 * every reply has rcode 0, 3 or 5 and the sections fit the rcode / AA bit — every backend, every
   store, no hypothesis.
+* v2, canonical stores (`V2Canonical`, the store predicate of C02's `serve_v2_eq_v1Of`; every compiled
+  v2 database): `serve_v2_never_panics` / `serve_v2_reply_or_none` with no hypothesis on rows,
+  location or `qnameOut`; `serve_v2_outcome_is_v1` re-derives it through `serve_v2_eq_v1Of` and
+  `serve_v1_never_panics`.
 -/
 import DnsVerif.Proofs.ServeSafety
+import DnsVerif.Props.C02
 
 namespace DnsVerif.Props.C13
 open DnsVerif DnsVerif.Name DnsVerif.Loc DnsVerif.Serve DnsVerif.ServeSafety
@@ -192,5 +197,106 @@ def replyReferral : Response :=
 example : serve ⟨.rdbV1, exDeleg, [0,0]⟩ qA = .reply replyReferral := by decide +kernel
 example : replyReferral.answer = [] ∧ replyReferral.answerAddrs = [] :=
   (reply_shape _ _ _ (by decide +kernel : serve ⟨.rdbV1, exDeleg, [0,0]⟩ qA = .reply replyReferral)).2.2.2 rfl
+
+/-! ### 4. v2 layout, canonical stores
+
+`ServeV2.V2Canonical s` (decidable, `Proofs/ServeV2.lean`) is the store predicate of C02's
+`serve_v2_eq_v1Of`: every key under the resource-record marker either decodes as
+`marker ++ pack owner ++ loc₂` (`decodeKey`: labels of 1…255 bytes, a 2-byte location) or has a byte
+`≥ 64` after the marker (the features key). Every compiled v2 database is of this form. -/
+
+/-- a canonical v2 store satisfies the key hypothesis of `serve_v2_never_panics_partial` -/
+theorem v2KeysOk_of_V2Canonical (s : Store) (h : ServeV2.V2Canonical s) : V2KeysOk s := by
+  intro e he hm
+  rcases h e he hm with hd | hj
+  · left
+    unfold ServeV2.decodeKey at hd
+    cases hu : unpack ((e.1.drop 2).take (e.1.length - 4)) with
+    | none => rw [hu] at hd; cases hd
+    | some a => rfl
+  · exact Or.inr hj
+
+/-- **v2 layout, canonical store: never a panic.** For every canonical v2 store — ANY rows under the
+keys, malformed ones included (a row that makes `ExtractRRFromRow` panic is recovered inside
+`ForEach` and does not reach the handler) —, every client location (any bytes) and every query whose
+name is a well-formed packed name with labels shorter than 64 bytes, the handler does not panic.
+No hypothesis on the rows (`RowsOKAt`, `TargetsOKAt` of C02 are not needed for this), none on the
+location, none on `qnameOut`. What remains is forced: the store shape
+(`serve_v2_can_panic_on_malformed_store`, a non-canonical store) and the 63-byte label limit
+(`serve_v2_can_panic_on_overlong_label`, on a canonical store). -/
+theorem serve_v2_never_panics (s : Store) (hc : ServeV2.V2Canonical s) (l : Bytes) (q : Query)
+    (ls : List Bytes) (hq : Name.unpack q.qname = some ls) (h63 : ∀ lab ∈ ls, lab.length < 64) :
+    serve ⟨.rdbV2, s, l⟩ q ≠ .panic :=
+  serve_v2_never_panics_partial s l q ls (v2KeysOk_of_V2Canonical s hc) hq h63
+
+/-- The same conclusion obtained a second way, through C02: on a canonical store whose rows visible
+to the client are well formed (`StoreRowsOKAt`, decidable), for a 2-byte location and a request whose
+lower-cased name is `pack q` (labels of 1…63 bytes, ≤ 255 octets), the v2 handler's outcome IS the
+outcome of the v1 handler on the re-keyed store `v1Of s` (`serve_v2_eq_v1Of`), and that one never
+panics (`serve_v1_never_panics`, no hypothesis on the store). The extra hypotheses here are those
+of the equality, not of panic-freedom — `serve_v2_never_panics` does without them. -/
+theorem serve_v2_outcome_is_v1 (s : Store) (hc : ServeV2.V2Canonical s) {l : Bytes} (hl : l.length = 2)
+    (hr : ServeV2.StoreRowsOKAt s l) (q : List Bytes) (hq : RevOrder.NameOK64 q)
+    (hlen : (pack q).length ≤ 255) (rq : Query) (hqn : rq.qname = pack q)
+    (hqo : toLower rq.qnameOut = rq.qname) :
+    serve ⟨.rdbV2, s, l⟩ rq = serve ⟨.rdbV1, ServeV2.v1Of s, l⟩ rq ∧
+      serve ⟨.rdbV2, s, l⟩ rq ≠ .panic := by
+  have he := C02.serve_v2_eq_v1Of s hc hl hr q hq hlen rq hqn hqo
+  refine ⟨he, ?_⟩
+  rw [he]
+  have hu : Name.unpack rq.qname = some q := by
+    rw [hqn]
+    unfold Name.unpack
+    exact RevOrder.unpack_pack q _ hq.ok
+      (by have := RevOrder.length_le_flat_length q; rw [RevOrder.pack_length]; omega)
+  exact serve_v1_never_panics .rdbV1 _ l rq q (by decide) hu
+
+/-- the canonical key format `marker ++ pack labels ++ loc₂` (labels of 1…255 bytes), as in
+`v2KeysOk_of_canonical`, is `V2Canonical` -/
+theorem v2Canonical_of_canonical (s : Store)
+    (h : ∀ e ∈ s, e.1.take 2 = Generated.dnsdata_ResourceRecordsKeyMarker →
+      ∃ (ls : List Bytes) (loc : Bytes), (∀ l ∈ ls, l ≠ [] ∧ l.length < 256) ∧ loc.length = 2 ∧
+        e.1 = Generated.dnsdata_ResourceRecordsKeyMarker ++ Name.pack ls ++ loc) :
+    ServeV2.V2Canonical s := by
+  intro e he hm
+  obtain ⟨ls, loc, hls, hloc, hk⟩ := h e he hm
+  left
+  have hn : RevOrder.NameOK ls := fun l hl => ⟨List.length_pos_iff.mpr (hls l hl).1, (hls l hl).2⟩
+  have : e.1 = RevOrder.Key ls loc := hk
+  rw [this, ServeV2.decodeKey_key hn hloc]
+  rfl
+
+/-- **v2, canonical store: a well-formed reply or none.** The outcome is a reply of the shape of
+`reply_shape` (which holds for every backend and store, v2 included), a bare SERVFAIL
+(`failedReply`) or no reply — never a panic. -/
+theorem serve_v2_reply_or_none (s : Store) (hc : ServeV2.V2Canonical s) (l : Bytes) (q : Query)
+    (ls : List Bytes) (hq : Name.unpack q.qname = some ls) (h63 : ∀ lab ∈ ls, lab.length < 64) :
+    (∃ r, serve ⟨.rdbV2, s, l⟩ q = .reply r ∧
+      (r.rcode = 0 ∨ r.rcode = 3 ∨ r.rcode = 5) ∧
+      (r.rcode = 5 → r.aa = false ∧ r.answer = [] ∧ r.answerAddrs = [] ∧ r.ns = [] ∧ r.extra = []) ∧
+      (r.rcode = 3 → r.aa = true ∧ r.answer = []) ∧
+      (r.aa = false → r.answer = [] ∧ r.answerAddrs = [])) ∨
+    serve ⟨.rdbV2, s, l⟩ q = .failedReply ∨ serve ⟨.rdbV2, s, l⟩ q = .noReply := by
+  have hp := serve_v2_never_panics s hc l q ls hq h63
+  cases h : serve ⟨.rdbV2, s, l⟩ q with
+  | reply r => exact Or.inl ⟨r, rfl, reply_shape _ _ r h⟩
+  | failedReply => exact Or.inr (Or.inl rfl)
+  | noReply => exact Or.inr (Or.inr rfl)
+  | panic => exact absurd h hp
+
+example : ServeV2.V2Canonical exV2 := by decide +kernel
+example : serve ⟨.rdbV2, exV2, [120,120]⟩ qA ≠ .panic :=
+  serve_v2_never_panics _ (by decide +kernel) _ _ [[97], [98]] (by decide) (by decide)
+-- a canonical store with a malformed row (`[1]`) under a visible key: still no panic
+example : ServeV2.V2Canonical C02.sB ∧ ¬ ServeV2.StoreRowsOKAt C02.sB [121,121] := by decide +kernel
+example : serve ⟨.rdbV2, C02.sB, [121,121]⟩ C02.qB ≠ .panic :=
+  serve_v2_never_panics _ (by decide +kernel) _ _ [[98], [97]] (by decide) (by decide)
+example : serve ⟨.rdbV2, C02.sB, [120,120]⟩ C02.qMX = serve ⟨.rdbV1, ServeV2.v1Of C02.sB, [120,120]⟩ C02.qMX ∧
+    serve ⟨.rdbV2, C02.sB, [120,120]⟩ C02.qMX ≠ .panic :=
+  serve_v2_outcome_is_v1 C02.sB (by decide +kernel) rfl (by decide +kernel) [[97]] (by decide) (by decide)
+    C02.qMX rfl rfl
+-- the two negative witnesses: the first store is not canonical, the second is
+example : ¬ ServeV2.V2Canonical badV2 := by decide +kernel
+example : ServeV2.V2Canonical featStore := by decide +kernel
 
 end DnsVerif.Props.C13
